@@ -48,7 +48,7 @@ def atheris_cell(name, modname, stratname, checkname, instrument, runs, tag):
             shutil.rmtree(out, ignore_errors=True)
 
     return Cell(name, st.integers(1, 2**30).map(lambda s_: {"runs": runs, "seed": s_}), check, lambda c: True, None,
-                quick=0, thorough=1, shrink=False, shards_thorough=1, weight=1e6)
+                quick=0, thorough=1, shrink=False, shards_thorough=1, weight=1e6, case_limit=4 * 3600)
 
 
 def atheris_stats(tags):
